@@ -199,3 +199,16 @@ claim('C11',
       'On the pinned tree the check prints KNOWN-FINDING lines for the D3 input classes (exit 0); with the patch applied there is no divergence.',
       'Lean 4 refinement proof against Mathlib\'s elliptic-curve group law over an executable model + kernel evaluation on regenerated curve constants + differential correspondence with the Python implementation',
       'DESIGN.md section 5 C11, section 6 D3')
+
+claim('C07',
+      'What a theorem can carry is proved (Props/C07.lean): a modulus >= 2^2047 with exponent 65537 (any byte encoding) is not flagged by the size/exponent checks; distinct odd primes '
+      'whose Fermat distance is at least the step bound are not flagged by CheckFermat; a modulus coprime to every other modulus of the batch is not flagged by CheckGCD and adding it changes '
+      'nobody else\'s gcd (non-interference); a semiprime can only ever be "factored" into its own two primes (C01 soundness); the entry points return the OR over artefacts (C16); and the EXACT '
+      'acceptance rates of the two ROCA fingerprints on the regenerated prime tuples: ROCA accepts between 2^-31 and 2^-30 of all residue vectors (2^-28..2^-27 of unit residues) — which is NOT '
+      '<= 2^-37 as the property\'s quantifier text assumes (roca_fp_rate_not_37) — and the variant exactly 2^-48 of unit residues. NOT decided by proof: the probability that a heuristic check '
+      '(continued fraction bound, gcd(n-1,m) gate, low Hamming weight, lattice checks, HNP) accuses a random healthy artefact. Every run pushes fresh healthy 2048/3072(/4096)-bit RSA keys '
+      '(alone, batched, next to weak neighbours), EC keys on all eight strong curves and ECDSA signatures with uniform nonces through the real checks (the real CheckAll* entry points in the '
+      'thorough tier) and reports any accusation with the artefact as replay.',
+      'Trusted: Lean kernel, harness. The probabilistic main clause is a search, not a theorem; thresholds are tied to the model at their boundaries by the C05/C06 correspondences.',
+      'Lean 4 proof of the deterministic corollaries and exact rates + search for accusations on the implementation',
+      'DESIGN.md section 5 C07, section 7')
